@@ -109,6 +109,8 @@ pub fn val_small() -> BoxedStrategy<Blob> {
 }
 
 pub fn val_any(max_big: u32) -> BoxedStrategy<Blob> {
+    // callers that re-run a scenario many times (fault enumeration) pass a small `max_big` and get no huge values
+    let small_only = max_big < 6000;
     prop_oneof![
         4 => Just(Blob::Lit(vec![])),
         10 => vec(any::<u8>(), 1..=16).prop_map(Blob::Lit),
@@ -122,11 +124,11 @@ pub fn val_any(max_big: u32) -> BoxedStrategy<Blob> {
             .prop_map(|(pad, v2, codec, count)| Blob::Trailer { pad, v2, codec, count }),
         2 => val_magic_len(),
         // beyond the 32/64 KiB windows and frame chunk sizes of the codecs (incompressible and compressible)
-        1 => prop_oneof![
+        1 => if small_only { Just(Blob::Lit(vec![0x33; 3])).boxed() } else { prop_oneof![
             (60_000u32..200_000, any::<u64>()).prop_map(|(n, seed)| Blob::Rand { n, seed }),
             (any::<u8>(), 60_000u32..200_000).prop_map(|(fill, n)| Blob::Pad { fill, n, tail: vec![7] }),
             (any::<u8>(), 4_000_000u32..4_400_000).prop_map(|(fill, n)| Blob::Pad { fill, n, tail: vec![] }),
-        ],
+        ].boxed() },
     ]
     .boxed()
 }
